@@ -130,7 +130,33 @@ Definition expected_kind (s : tsig) (p : param) : option akind :=
   | DStr _ => Some KStr
   | DInt _ => Some KInt
   | DList _ => Some KList
+  | DOther _ _ => None      (* judged by name, see [expected_kind_name] *)
   | DBool _ => if mem (p_name p) (d_optional dc) then None else Some KBool
+  end.
+
+(** the value type by its Python name, for every kind of default *)
+Definition expected_kind_name (s : tsig) (p : param) : option string :=
+  let dc := s_deco s in
+  match p_default p with
+  | DEmpty | DNone => if mem (p_name p) (d_iterable dc) then Some "list" else None
+  | DStr _ => Some "str"
+  | DInt _ => Some "int"
+  | DList _ => Some "list"
+  | DOther ty _ => if mem (p_name p) (d_optional dc) && String.eqb ty "bool" then None else Some ty
+  | DBool _ => if mem (p_name p) (d_optional dc) then None else Some "bool"
+  end.
+
+(** observed per-argument facts, looked up by python name *)
+Definition takes_of (o : cli) (n : string) : option bool :=
+  match find (fun x => String.eqb (arg_name (fst x)) n) (combine (o_args o) (o_takes o)) with
+  | Some x => Some (snd x)
+  | None => None
+  end.
+
+Definition kind_name_of (o : cli) (n : string) : option string :=
+  match find (fun ak => String.eqb (arg_name (fst ak)) n) (combine (o_args o) (o_kind_names o)) with
+  | Some ak => Some (snd ak)
+  | None => None
   end.
 
 Definition wants_inverse (s : tsig) (p : param) : bool :=
@@ -148,10 +174,17 @@ Definition kinds_ok (s : tsig) (o : cli) : bool :=
         | Some k => akind_eqb (a_kind a) k
         | None => true
         end &&
-        (* booleans take no value *)
-        match expected_kind s p with
-        | Some KBool => negb (takes_value a)
-        | _ => true
+        (* the value type, by name, also for types outside str/int/bool/list *)
+        match expected_kind_name s p, kind_name_of o (p_name p) with
+        | Some k, Some k' => String.eqb k k'
+        | None, Some _ => true
+        | _, None => false
+        end &&
+        (* booleans take no value (as the Argument itself reports) *)
+        match expected_kind s p, takes_of o (p_name p) with
+        | Some KBool, Some tv => negb tv
+        | _, Some _ => true
+        | _, None => false
         end &&
         (* default-true booleans gain the --no- form, leading back to them *)
         (if wants_inverse s p
